@@ -3,10 +3,13 @@
 package contracts
 
 import (
+	"encoding/json"
 	"fmt"
 	"reflect"
 	"sync"
 
+	appchainMgr "github.com/meshplus/bitxhub-core/appchain-mgr"
+	"github.com/iancoleman/orderedmap"
 	"github.com/meshplus/bitxhub-core/boltvm"
 	"github.com/meshplus/bitxhub-core/governance"
 	"github.com/meshplus/bitxhub-model/pb"
@@ -184,3 +187,71 @@ func ZZH_C17_surface_node()       { zzSurface(zzNodeAddr, zz.Choice("audit", 2) 
 func ZZH_C17_surface_dapp()       { zzSurface(zzDappAddr, zz.Choice("audit", 2) == 1) }
 func ZZH_C17_surface_strategy()   { zzSurface(zzStrategyAddr, zz.Choice("audit", 2) == 1) }
 func ZZH_C17_surface_broker()     { zzSurface(zzBrokerAddr, false) }
+
+const (
+	zzChainAdminA = "0xA000000000000000000000000000000000000001"
+	zzChainAdminB = "0xB000000000000000000000000000000000000002"
+)
+
+// ZZH_C17_chain_admin_scope: the appchain manager records the admins of two appchains through
+// the real RoleManager.UpdateAppchainAdmin (either order, optionally a later re-assignment of one
+// chain). An appchain admin's authority is confined to its own chain: GetAppchainAdmin(chain)
+// names exactly that chain's admins, and ServiceManager.RegisterService for a chain is refused
+// without effect for the other chain's admin and for an outsider (PermissionSelf).
+func ZZH_C17_chain_admin_scope() {
+	w, cs := zzFullWorld()
+	w.audit = zz.Choice("audit", 2) == 1
+	chains := []string{"chA", "chB"}
+	admins := []string{zzChainAdminA, zzChainAdminB}
+	first := zz.Choice("firstRegistered", 2)
+	for k := 0; k < 2; k++ {
+		i := k ^ first
+		_, err := zzInvoke(w, cs[zzRoleAddr], zzRoleAddr, zzAppchainAddr, "UpdateAppchainAdmin", []*pb.Arg{pb.String(chains[i]), pb.String(admins[i])})
+		zz.Assert("C17.scope.setup", err == nil)
+	}
+	if zz.Choice("reassign", 2) == 1 {
+		// chain A's admin list is written again (same admin)
+		_, err := zzInvoke(w, cs[zzRoleAddr], zzRoleAddr, zzAppchainAddr, "UpdateAppchainAdmin", []*pb.Arg{pb.String("chA"), pb.String(zzChainAdminA)})
+		zz.Assert("C17.scope.setup", err == nil)
+	}
+	for i, ch := range chains {
+		ret, err := zzInvoke(w, cs[zzRoleAddr], zzRoleAddr, zzOutsider, "GetAppchainAdmin", []*pb.Arg{pb.String(ch)})
+		zz.Assert("C17.scope.admins-readable", err == nil)
+		var roles []*Role
+		_ = json.Unmarshal(ret, &roles)
+		zz.Assert("C17.scope.exactly-own-admins:"+ch, len(roles) == 1 && roles[0].ID == admins[i] && roles[0].AppchainID == ch)
+	}
+	for _, ch := range chains {
+		w.putObj(zzAppchainAddr, appchainMgr.AppchainKey(ch), appchainMgr.Appchain{ID: ch, ChainName: ch, ChainType: "fabric", Status: governance.GovernanceAvailable})
+	}
+	zzPutGovAdmins(w, 4)
+	callers := []string{zzChainAdminA, zzChainAdminB, zzOutsider}
+	ci := zz.Choice("caller", 3)
+	ti := zz.Choice("targetChain", 2)
+	w.caller = callers[ci]
+	snap := w.snapshot()
+	before := w.effects
+	_, err := zzInvoke(w, cs[zzServiceAddr], zzServiceAddr, callers[ci], "RegisterService", []*pb.Arg{
+		pb.String(chains[ti]), pb.String("svcX"), pb.String("nameX"), pb.String("CallContract"), pb.String("intro"),
+		pb.Uint64(1), pb.String(""), pb.String("details"), pb.String("reason")})
+	own := ci == ti
+	if err != nil {
+		zz.Observe("err", err.Error())
+	}
+	zz.Cover("C17.scope.own-admin-registers", own && err == nil)
+	zz.Cover("C17.scope.refused", err != nil)
+	if !own {
+		zz.Assert("C17.scope.foreign-admin-refused-without-effect", err != nil && w.effects == before && w.unchanged(snap))
+	}
+}
+
+// zzPutGovAdmins stores n available governance admins the way the genesis role setup does.
+func zzPutGovAdmins(w *zzWorld, n int) {
+	ids := orderedmap.New()
+	for i := 0; i < n; i++ {
+		id := zzAdminIDs[i]
+		ids.Set(id, struct{}{})
+		w.putObj(zzRoleAddr, RoleKey(id), Role{ID: id, RoleType: GovernanceAdmin, Weight: 1, Status: governance.GovernanceAvailable})
+	}
+	w.putObj(zzRoleAddr, RoleTypeKey(string(GovernanceAdmin)), ids)
+}
